@@ -261,6 +261,11 @@ func (h *c03Harness) execGen(line string, w []string) {
 	o := genOpts{Epoch: kv["epoch"], NBlocks: int(kv["blocks"]), MaxTx: int(kv["maxtx"]), SkipPct: int(kv["skip"]), NKeys: int(kv["nkeys"]),
 		KeySeedBase: byte(kv["base"]), LoadedPct: int(kv["loaded"]), FramePct: int(kv["frame"])}
 	for _, x := range w[1:] {
+		if strings.HasPrefix(x, "embed=") {
+			for _, a := range strings.Split(x[6:], ",") {
+				o.DataEmbeds = append(o.DataEmbeds, zz.Unhex(a))
+			}
+		}
 		if strings.HasPrefix(x, "extra=") {
 			for _, a := range strings.Split(x[6:], ",") {
 				var pk solana.PublicKey
@@ -1084,9 +1089,23 @@ func (h *c03Harness) generate(thorough bool) {
 	// in the newer epoch than the one holding the real history".
 	A := uint64(2 + rng.Intn(6))
 	C, B := A+1, A+2
+	lastNKeys := 0
+	var embed [][]byte
 	genLine := func(en uint64, blocks int, base int, extra [][]byte) {
+		nkeys := 90 + rng.Intn(40)
+		if len(embed) > 0 {
+			nkeys = lastNKeys // the same address set as the epoch the embedded addresses collide in
+		}
+		lastNKeys = nkeys
 		line := fmt.Sprintf("gen epoch=%d blocks=%d maxtx=3 skip=%d nkeys=%d base=%d loaded=25 frame=0 rng=%d",
-			en, blocks, 30+rng.Intn(30), 90+rng.Intn(40), base, rng.U64()>>1)
+			en, blocks, 30+rng.Intn(30), nkeys, base, rng.U64()>>1)
+		if len(embed) > 0 {
+			var xs []string
+			for _, x := range embed {
+				xs = append(xs, hx(x))
+			}
+			line += " embed=" + strings.Join(xs, ",")
+		}
 		if len(extra) > 0 {
 			var xs []string
 			for _, x := range extra {
@@ -1103,6 +1122,7 @@ func (h *c03Harness) generate(thorough bool) {
 		return
 	}
 	keys[A] = h.findKeys(rng, h.epochs[A], thorough)
+	nkeysA := lastNKeys
 	crossX := keys[A].collAddrs
 	if len(crossX) > nCross {
 		crossX = crossX[:nCross]
@@ -1238,6 +1258,30 @@ func (h *c03Harness) generate(thorough bool) {
 			h.exec(fmt.Sprintf("slot rpc %d", s))
 			h.exec(fmt.Sprintf("slot grpc %d", s))
 			h.exec(fmt.Sprintf("slot epoch %d %d", loaded[0], s))
+		}
+	}
+	// epoch D: the address set of A (so A's colliding absent addresses collide in D's pubkey index too), and every
+	// transaction carries those addresses as 32 bytes of instruction DATA: they are still not mentioned by anything
+	D := B + 1
+	if za := keys[A].collAddrs; len(za) > 0 {
+		if len(za) > 3 {
+			za = za[:3]
+		}
+		embed, lastNKeys = za, nkeysA
+		genLine(D, nb+rng.Intn(nb/4), 1, nil)
+		embed = nil
+		if eD := h.epochs[D]; eD != nil {
+			h.exec(fmt.Sprintf("server %d", D))
+			for _, z := range za {
+				if eD.pkColl.collides(z) {
+					h.s.Count("address-in-instruction-data-only:colliding")
+				} else {
+					h.s.Count("address-in-instruction-data-only:not-colliding-here")
+				}
+				h.exec(fmt.Sprintf("addr ix %d %s", D, hx(z)))
+				h.exec("addr rpc " + hx(z))
+				h.exec("addr rpc " + hx(z) + " limit=2")
+			}
 		}
 	}
 	h.exec(fmt.Sprintf("server %d", A))
